@@ -36,7 +36,7 @@ def run(ctx):
     ctx.check(ok, 'D1', 'dispatch_message routes on the parsed header of the datagram', key=('D1', 'header-parse'),
               site=ctx.site(dm, dm.node))
     lookups = common.nodes_calling(ctx, dm, g, common.calls_named('_get_ike_sa_by_spi'))
-    ctx.floor('D1 SPI lookup in dispatch_message', len(lookups), 1)
+    ctx.floor('the lookup of the IKE_SA by SPI in dispatch_message', len(lookups), 1, rule='D1')
     for n, x in lookups:
         arg = x.args[0]
         key = None
@@ -180,7 +180,7 @@ def run(ctx):
     ctx.floor('D3 sites that establish the successor IKE_SA', nest, 2)
     regs = [(n, x) for n, x in common.nodes_calling(ctx, dm, g, common.calls_named('append'))
             if x.args and src(x.args[0]).endswith('.new_ike_sa')]
-    ctx.floor('D3 registration of the rekeyed IKE_SA', len(regs), 1)
+    ctx.floor('the registration of the rekeyed IKE_SA in dispatch_message', len(regs), 1, rule='D3')
     for n, x in regs:
         subj = src(x.args[0]).rsplit('.', 1)[0] + '.state'
         sets = [S.eval_cond(c.ast)[1] for c in g.nodes if c.kind == 'cond' and S.eval_cond(c.ast) is not None
@@ -200,7 +200,7 @@ def run(ctx):
     ml = ctx.func('ikesacontroller.IkeSaController.main_loop')
     gm = esc.add_exception_edges(ml)
     td = [(n, x) for n, x in common.nodes_calling(ctx, ml, gm, common.calls_named('to_dict'))]
-    ctx.floor('D4 status query', len(td), 1)
+    ctx.floor('the status query (to_dict of the table entries)', len(td), 1, rule='D4')
     for n, x in td:
         recv = src(x.func.value)
         okq = False
